@@ -52,7 +52,7 @@ PROP = Prop(
     pid="C09",
     coq_props="theories/C09/Props.v",
     coq_run=["theories/C09/Run.v"],
-    streams=[Stream("robust", "c09robust", n_quick=1500, n_thorough=20000, shards_thorough=4, valid=valid, timeout=3000,
+    streams=[Stream("robust", "c09robust", n_quick=1500, n_thorough=8000, shards_thorough=4, valid=valid, timeout=3000,
                     what="an lmd worker process (unix socket listener, peers, ulimit -v) fed with generated requests and "
                          "wired to a misbehaving scripted backend; liveness, watchdog, canary; response codes against the "
                          "dispatch model, update steps against the reply path model")],
@@ -72,6 +72,6 @@ PROP = Prop(
         "other data than present/absent optional columns, missing references, empty and non-empty lists is not in the matrix",
         "reply theorem: the cells a consumer reads are among the requested columns (idxs < width) and the bytes that arrive fit into memory",
     ],
-    gen=True,
+    gen=True, gen_files=["Dispatch.v"],
     extra_targets=["theories/C09/GenProofs.v"],
 )
